@@ -23,6 +23,9 @@ func (f BooleanFalseTrueFactoryType) New(v uint8) (BooleanFalseTrue, error) {
 }
 
 func (f BooleanFalseTrueFactoryType) NewEnum(v int) (Enum, error) {
+	if v < 0 || v > 255 {
+		return nil, ErrInvalidEnumIdx
+	}
 	return f.New(uint8(v))
 }
 
